@@ -205,8 +205,17 @@ def _substitute_original_strings(original_source: str, new_source: str) -> str:
         # If the modifiers are not the same, we use the new modifiers.
         if new_modifiers != original_modifiers:
             prefix = "".join(sorted(new_modifiers, key="frb".index))
-            most_common_original_formatting = most_common_original_formatting.lstrip("brf")
+            most_common_original_formatting = most_common_original_formatting.lstrip("brfBRF")
             most_common_original_formatting = prefix + most_common_original_formatting
+
+        # The body of a literal means something else under another prefix (r'\n' is not '\n'):
+        # only use a spelling that still is a literal with this value.
+        try:
+            restored_value = ast.literal_eval(most_common_original_formatting)
+        except (ValueError, SyntaxError, TypeError):
+            continue
+        if type(restored_value) is not type(node.value) or restored_value != node.value:
+            continue
 
         replacements[node] = most_common_original_formatting
 
